@@ -104,6 +104,9 @@ func Open(dir string, config Config) (*DB, error) {
 func (db *DB) Close() {
 	defer atomic.StoreUint32(&db.state, uint32(StateClosed))
 	db.closeC <- struct{}{}
+	// wait until every queued immutable memtable is flushed: a sstable must never hold
+	// newer versions than a wal which is still to be flushed, recovery relies on that order
+	<-db.closed
 
 	mt := db.memtable
 	mt.freeze()
@@ -114,8 +117,6 @@ func (db *DB) Close() {
 			db.logger.Warnf("failed to delete immutable wal file: %v", err)
 		}
 	}
-
-	<-db.closed
 }
 
 func (db *DB) View(fn TxnFunc) error {
